@@ -1,6 +1,6 @@
 (* C04 — property theorems (statements only; proofs live in Proofs*.v). *)
 From Coq Require Import ZArith QArith Qround Bool List.
-Require Import QV.C04.Model QV.C04.Spec QV.C04.Proofs QV.C04.Proofs2 QV.C04.Proofs4 QV.C04.Proofs3.
+Require Import QV.C04.Model QV.C04.Spec QV.C04.Proofs QV.C04.Proofs2 QV.C04.Proofs4 QV.C04.Proofs3 QV.C04.Proofs5.
 Import ListNotations.
 Open Scope Q_scope.
 
@@ -179,3 +179,40 @@ Theorem C04_example_for_loop_guard_satisfiable :
   /\ exists v, sym ex_for (decimalize ex_for_env) = Ok v.
 Proof. exact example_for. Qed.
 Print Assumptions C04_example_for_loop_guard_satisfiable.
+
+(* round 4.  The number of iterations of a for-loop as ForLoopPulseTemplate._step_count writes it since /repo 86f615f
+   (floor form, robust against floating point evaluation) is the number the model's `sym` uses (ceiling form, the code
+   before), for all integer ranges with step <> 0, both signs *)
+Theorem C04_step_count_forms_agree : forall a b s : Z, s <> 0%Z ->
+  Qfloor ((inject_Z b - inject_Z a + inject_Z s - inject_Z (Z.sgn s) / 2) / inject_Z s)
+  = Qceiling ((inject_Z b - inject_Z a) / inject_Z s).
+Proof. exact step_count_forms_agree. Qed.
+Print Assumptions C04_step_count_forms_agree.
+
+(* expression level: substituting a parameter mapping into an expression and evaluating it outside (MappingPT.duration =
+   inner duration .evaluate_symbolic(mapping)) is evaluating the expression in the environment extended by the mapped
+   values (the model's PMap; MappedScope in create_program) -- simultaneous, names not mapped stay visible, the first
+   binding of a name wins on both sides; the mapped values must be numbers evaluate_numeric accepts *)
+Theorem C04_substitution_is_environment_extension : forall e m vs,
+  rall (map (bind_rhs e) m) = Ok vs -> Forall (fun p => not_bad (snd p) = true) vs ->
+  forall x, eval (vs ++ e) x = eval e (subst m x).
+Proof. exact subst_eval. Qed.
+Print Assumptions C04_substitution_is_environment_extension.
+
+(* ... hence the symbolic duration of a mapped atom / of a mapped sequence of two atoms is the substituted expression *)
+Theorem C04_mapped_duration_is_substituted_expression : forall e m cm k chs d vs,
+  rall (map (bind_rhs e) m) = Ok vs -> Forall (fun p => not_bad (snd p) = true) vs ->
+  sym (PMap m cm (PAtom k chs d)) e = eval e (subst m d).
+Proof. exact sym_map_atom. Qed.
+Print Assumptions C04_mapped_duration_is_substituted_expression.
+
+(* non-vacuity: the exchange mapping {a: b, b: a} on a + 2*b at a = 3, b = 5: substitution gives b + 2*a = 11 *)
+Theorem C04_example_substitution :
+  let e := [(0%N, VInt 3); (1%N, VInt 5)] in
+  let m := [(0%N, EVar 1%N); (1%N, EVar 0%N)] in
+  let x := EAdd (EVar 0%N) (EMul (ELit (VInt 2)) (EVar 1%N)) in
+  rall (map (bind_rhs e) m) = Ok [(0%N, VInt 5); (1%N, VInt 3)]
+  /\ subst m x = EAdd (EVar 1%N) (EMul (ELit (VInt 2)) (EVar 0%N))
+  /\ eval e (subst m x) = Ok (VInt 11) /\ eval ([(0%N, VInt 5); (1%N, VInt 3)] ++ e) x = Ok (VInt 11).
+Proof. exact example_substitution. Qed.
+Print Assumptions C04_example_substitution.
